@@ -475,9 +475,12 @@ extern "C" void verif_point(int id, const void* a, const void* b)
         W->nodes_total++;
         W->clock_ns += W->cfg.node_cost_ns;
         const engine::Position* pos = static_cast<const engine::Position*>(a);
-        if (t->force_stop && t->search_obj) static_cast<engine::Search*>(t->search_obj)->stop_search = true;
-        if (W->monitors_on) W->monitor_node(t, id, pos, static_cast<const engine::Info*>(b));
-        if (t->nf_next < t->node_faults.size() && t->node_faults[t->nf_next].k <= t->nodes) apply_node_faults(t, pos);
+        if (!W->uci_destroyed)  // after main() destroyed the engine object the harness keeps its hands off engine memory
+        {
+            if (t->force_stop && t->search_obj) static_cast<engine::Search*>(t->search_obj)->stop_search = true;
+            if (W->monitors_on) W->monitor_node(t, id, pos, static_cast<const engine::Info*>(b));
+            if (t->nf_next < t->node_faults.size() && t->node_faults[t->nf_next].k <= t->nodes) apply_node_faults(t, pos);
+        }
         // W4(k): the watch for PT_NODE counts NODE and QNODE visits alike
         if (t->watch_armed && t->watch_point == PT_NODE && t->nodes >= t->watch_k)
         {
@@ -490,12 +493,12 @@ extern "C" void verif_point(int id, const void* a, const void* b)
         break;
     }
     case VERIF_PT_AFTER_UNDO:
-        if (W->monitors_on)
+        if (W->monitors_on && !W->uci_destroyed)
             W->monitor_after_undo(t, static_cast<const engine::Position*>(a), static_cast<const engine::Info*>(b));
         break;
     case VERIF_PT_GO_ENTRY:
         t->search_obj = const_cast<void*>(a);
-        W->on_go_entry(t);
+        if (!W->uci_destroyed) W->on_go_entry(t);
         yieldpoint(t, id);
         break;
     case VERIF_PT_GO_AFTER_INIT:
@@ -809,6 +812,24 @@ extern "C"
 }
 #else
 namespace sim { void resolve_real_sync() {} }
+// tsan variant: ThreadSanitizer's interceptors stay in charge of the engine's synchronisation, with one exception.  A
+// task that joins another one would block in the kernel while it holds the baton; the sanitizer's `pthread_join` is a
+// weak alias, so this definition wins, parks the joiner in the scheduler until every thread the engine started has
+// ended, and then lets the sanitizer's interceptor do the real join (and record the happens-before edge).
+extern "C" int __interceptor_pthread_join(pthread_t, void**);
+extern "C" int pthread_join(pthread_t th, void** ret)
+{
+    sim::Task* t = sim::W ? sim::tl_task : nullptr;
+    if (t && sim::W->live_search_tasks() > 0)
+    {
+        t->join_target = -2;
+        sim::W->counters["sync_joins"]++;
+        do sim::task_yield(t, sim::ST_WAIT_JOIN, sim::PT_JOIN);
+        while (sim::W->live_search_tasks() > 0);
+        t->join_target = -1;
+    }
+    return __interceptor_pthread_join(th, ret);
+}
 #endif
 
 namespace sim
@@ -992,11 +1013,22 @@ void World::gui_note_sent(const std::string& line)
         cur_go = g.index;
         counters["go_sent"]++;
     }
+    else if (c == "quit")
+    {
+        exit_requested = true;
+        if (cur_go >= 0 && gos[cur_go].bestmoves == 0)
+        {
+            gos[cur_go].exit_pending = true;
+            counters["quit_during_search"]++;
+        }
+    }
     else if (c == "stop")
     {
+        ++stop_lines_sent;
         if (cur_go >= 0 && !gos[cur_go].stop_sent)
         {
             gos[cur_go].stop_sent = true;
+            gos[cur_go].stop_line_no = stop_lines_sent;
             counters["stop_sent"]++;
         }
     }
@@ -1010,6 +1042,18 @@ void World::gui_note_sent(const std::string& line)
 
 void World::send_line(const Op& op)
 {
+    if (op.line == "@close")
+    {
+        // the GUI closes its end of the pipe without `quit`: the reader sees EOF once it has drained what was sent
+        in_eof = true;
+        exit_requested = true;
+        if (cur_go >= 0 && gos[cur_go].bestmoves == 0) gos[cur_go].exit_pending = true;
+        counters["gui_closed_pipe"]++;
+        if (live_search_tasks() > 0 || (cur_go >= 0 && !gos[cur_go].task_done)) counters["gui_closed_pipe_during_search"]++;
+        trace_event(0x5E4D, 0xC105E, uint64_t(inq.size()));
+        if (op.hold) hold_search = true;
+        return;
+    }
     if (op.line.find("@LOG@") != std::string::npos)
     {
         // per-process scratch log file, removed with the world
@@ -1064,10 +1108,12 @@ void World::on_line_consumed(Task* t, const std::string& line)
     }
     else if (line == "stop")
     {
+        ++stop_lines_consumed;
         if (cur_go >= 0)
         {
             GoRec& g = gos[cur_go];
-            if (g.stop_sent && !g.stop_consumed)
+            // a stop that was sent before this go (stray, or left over from an earlier go) is not this go's stop
+            if (g.stop_sent && !g.stop_consumed && stop_lines_consumed >= g.stop_line_no)
             {
                 g.stop_consumed = true;
                 // classify the window the search task is in
@@ -1184,7 +1230,7 @@ void World::on_go_phase(Task* t, int point)
 void World::on_before_bestmove(Task* t)
 {
     if (t->go_index < 0) return;
-    if (monitors_on) monitor_before_bestmove(t, static_cast<engine::Search*>(t->search_obj));
+    if (monitors_on && !uci_destroyed) monitor_before_bestmove(t, static_cast<engine::Search*>(t->search_obj));
 }
 
 void World::on_stop_exit(Task*)
@@ -1532,6 +1578,7 @@ void poison_entry(World* w, uint64_t key, uint64_t eseed, const engine::Position
     default: score = r.range(-VALUE_MATE, VALUE_MATE); break;
     }
     tt::TTEntry e(score, depth, flag, mv);
+    if (!w->uci) return;
     w->uci->ttable.insert(key, e);
     if (r.chance(0.3))
     {
@@ -1571,6 +1618,17 @@ static void* uci_thread_main(void*)
     t->state = ST_RUNNING;
     t->pthread_id = (unsigned long)pthread_self();
     W->uci->loop();
+    {
+        // what engine/main.cpp does next: `Uci uci` is a local of main(), so it is destroyed on return, then exit() runs
+        // while any other thread is still running (until exit_group).  The reader task plays main() here.
+        if (W->live_search_tasks() > 0) W->counters["exit_with_live_search_thread"]++;
+        W->counters["exit_model"]++;
+        engine::Uci* u = W->uci;
+        W->uci_destroyed = true;
+        if (W->live_search_tasks() > 0) fprintf(stderr, "[exit-model] main() left Uci::loop() and destroys the Uci object while %d search thread(s) still run\n", W->live_search_tasks());
+        W->uci = nullptr;
+        delete u;
+    }
     tl_task = nullptr;
     t->state = ST_DONE;
     t->last_point = PT_THREAD_END;
@@ -1589,7 +1647,7 @@ bool World::eligible(const Task& t) const
     case ST_WAIT_MUTEX: return t.mutex_epoch_seen != mutex_epoch;
     case ST_WAIT_COND: return t.cond_signalled || (t.wake_ns >= 0 && clock_ns >= t.wake_ns);
     case ST_SLEEP: return clock_ns >= t.wake_ns;
-    case ST_WAIT_JOIN: return t.join_target < 0 || tasks[t.join_target].state == ST_DONE;
+    case ST_WAIT_JOIN: return t.join_target == -2 ? live_search_tasks() == 0 : (t.join_target < 0 || tasks[t.join_target].state == ST_DONE);
     default: break;
     }
     if (t.kind == TK_SEARCH && hold_search) return false;
@@ -1671,6 +1729,12 @@ bool World::quiescent() const
 bool World::gui_progress()
 {
     bool progress = false;
+    if (exit_requested && tasks[0].state == ST_DONE && pc < script->ops.size())
+    {
+        // the engine process is exiting: the GUI gets nothing more from it
+        pc = script->ops.size();
+        return true;
+    }
     while (pc < script->ops.size())
     {
         const Op& op = script->ops[pc];
@@ -1891,6 +1955,7 @@ RunResult run_world(const Script& script)
     Task* last = nullptr;
     bool hang = false;
     bool engine_deadlock = false;
+    bool process_exited = false;   // exit_group with threads still running: nothing to unwind, the process is given up
     size_t sched_pos = 0;
 
     for (;;)
@@ -1902,6 +1967,21 @@ RunResult run_world(const Script& script)
             world.in_eof = true;  // GUI closes the pipe: reader loop ends
         }
         if (script_done && world.tasks[0].state == ST_DONE && world.live_search_tasks() == 0) break;
+        if (world.uci_destroyed && world.tasks[0].state == ST_DONE && world.live_search_tasks() > 0)
+        {
+            // main() is inside exit(): static destructors, stream flushes, then exit_group.  Until then the other threads
+            // run on; how far they get is the scheduler's (here: the seed's) choice.
+            if (world.exit_window_nodes < 0)
+            {
+                world.exit_window_nodes = world.sched_rng.logrange(1, 30000);
+                world.exit_nodes_base = world.nodes_total;
+            }
+            if (world.nodes_total - world.exit_nodes_base >= world.exit_window_nodes || ++world.exit_steps > 20000)
+            {
+                process_exited = true;
+                break;
+            }
+        }
 
         std::vector<Task*> el;
         for (int i = 0; i < world.spawned; ++i)
@@ -1924,6 +2004,7 @@ RunResult run_world(const Script& script)
                 }
             }
             if (world.hold_search) { world.hold_search = false; continue; }
+            if (world.uci_destroyed && world.tasks[0].state == ST_DONE) { process_exited = true; break; }
             // every live task waits for the output lock and its owner is one of the waiters (or gone):
             // the engine has dead-locked itself.  The threads cannot be unwound: report and abandon the process.
             {
@@ -2095,8 +2176,7 @@ RunResult run_world(const Script& script)
     }
 
     RunResult& res = world.result;
-    if (engine_deadlock)
-    {
+    auto abandon = [&]() -> RunResult {
         // threads are parked for ever; the caller must abandon this process after recording the result
         res.counters["hang"] = 1;
         res.trace_hash = world.trace_hash;
@@ -2108,7 +2188,9 @@ RunResult run_world(const Script& script)
         for (size_t i = n > 6 ? n - 6 : 0; i < n; ++i) res.transcript_tail.push_back(world.transcript[i].text);
         W = nullptr;
         return res;
-    }
+    };
+    if (process_exited) world.counters["process_exited_with_live_threads"]++;
+    if (engine_deadlock || process_exited) return abandon();
     if (hang)
     {
         res.infra_error = true;
@@ -2129,6 +2211,13 @@ RunResult run_world(const Script& script)
         const int64_t nodes_before_teardown = world.nodes_total;
         for (;;)
         {
+            // the pipe was closed on a running search and main() has destroyed the engine object: that process is exiting,
+            // there is nothing to unwind (whatever its threads did until here has been recorded)
+            if (world.uci_destroyed && world.tasks[0].state == ST_DONE && world.live_search_tasks() > 0)
+            {
+                world.counters["process_exited_with_live_threads"]++;
+                return abandon();
+            }
             bool any = false;
             for (int i = 0; i < world.spawned; ++i)
             {
@@ -2203,7 +2292,7 @@ void World::end_of_run_checks()
     for (auto& g : gos)
     {
         if (!g.consumed) continue;
-        if (g.root_has_moves && g.bestmoves == 0 && !result.infra_error)
+        if (g.root_has_moves && g.bestmoves == 0 && !result.infra_error && !g.exit_pending)
             violation("C05", "no-bestmove", "go #" + std::to_string(g.index) + " '" + g.line + "' in " + g.root.fen() + " never answered");
         if (!g.stop_window.empty()) counters["stops_consumed"]++;
         if (g.bestmoves > 0 && g.infos.empty()) counters["probe_bestmove_before_first_iteration"]++;
